@@ -238,6 +238,22 @@ func TestC15(t *testing.T) {
 			n := rapid.IntRange(4090, 9000).Draw(rt, "bigBinary")
 			v, shape = []interface{}{v, make([]byte, n), "tail"}, "slice:[]interface{}+binary"
 		}
+		if rapid.IntRange(0, 5).Draw(rt, "withLongList") == 0 {
+			// a list of more than 64 elements, at the end of the message or followed by something
+			n := rapid.IntRange(65, 300).Draw(rt, "longList")
+			l := make([]int32, n)
+			for i := range l {
+				l[i] = int32(i * 37)
+			}
+			switch rapid.IntRange(0, 2).Draw(rt, "longListAt") {
+			case 0:
+				v, shape = l, "slice:[]int32>64"
+			case 1:
+				v, shape = []interface{}{v, l}, "slice:[]interface{}+list>64 last"
+			default:
+				v, shape = []interface{}{l, v, "tail"}, "slice:[]interface{}+list>64 first"
+			}
+		}
 		if rapid.IntRange(0, 11).Draw(rt, "withBigLeaf") == 0 {
 			// one leaf whose encoding is a single payload of more than 64 KiB
 			n := rapid.IntRange(65536, 70000).Draw(rt, "bigLeaf")
